@@ -4,6 +4,7 @@
 -/
 import DeepModel.Proofs.CollectorCount
 import DeepModel.Proofs.CollectorClosed
+import DeepModel.Proofs.CollectorBenign
 
 namespace Collector
 open Heap Extracted.Collector
@@ -73,7 +74,10 @@ theorem collectWatches_nofail {H : Heap} (hB : Benign H) (L : Limits) (ws : List
     simp only [collectWatches]
     rw [processVariable_nofail hB]
     split
-    · exact ih _ _
+    · simp only
+      split
+      · exact ih _ _
+      · exact ih _ _
     · simp only
       split
       · exact ih _ _
@@ -104,7 +108,9 @@ theorem collectWatches_outs_obj (H : Heap) (L : Limits) (ws : List WatchIn) (c :
     split
     · split
       · simp
-      · exact key _ _ rfl (ih _ _)
+      · split
+        · exact key _ _ rfl (ih _ _)
+        · exact key _ _ rfl (ih _ _)
     · split
       · exact key _ _ rfl (ih _ _)
       · split
@@ -155,5 +161,17 @@ theorem collect_closed {H : Heap} {a : ActionIn} {s : Snapshot} (hB : Benign H)
           simp only at h1
           rw [e] at h1
           exact absurd h1 (hW wi hwi)
+
+/-- **total**: every snapshot action produces its snapshot, on every heap (the guards make every heap benign) -/
+theorem collect_total_all (H : Heap) (a : ActionIn) : ∃ s, collect H a = .ok s := collect_total (benign_all H) a
+
+/-- **closed**, with the one hypothesis the code still forces (no reference to a collected frame's locals dict) -/
+theorem collect_closed_all {H : Heap} {a : ActionIn} {s : Snapshot}
+    (hN : NoRef H (localsOf a.frames)) (hW : ∀ w ∈ a.watches, w.value ∉ localsOf a.frames)
+    (h : collect H a = .ok s) :
+    (∀ vars ∈ s.frames, ∀ x ∈ vars, x.vid ∈ s.table.map (·.vid)) ∧
+    (∀ e ∈ s.table, ∀ r ∈ e.children, r.vid ∈ s.table.map (·.vid)) ∧
+    (∀ w ∈ s.watches, ∀ v, w.vid = some v → v ∈ s.table.map (·.vid)) :=
+  collect_closed (benign_all H) hN hW h
 
 end Collector
